@@ -109,8 +109,17 @@ Definition count_apps (t : tape) (r : rule) : outcome (option (N * index * N)) :
   obind (count_apps_loop t r None) (fun x =>
     match x with None => Ok None | Some apps => Ok apps end).
 
-(** apply_plus after fix 3663175: None = checked_mul overflow *)
+(** apply_plus after fixes 3663175 (signed update) and b6eaeed (checked_add):
+    None = checked_mul or checked_add overflow *)
 Definition apply_plus (count : N) (diff : Z) (times : N) : outcome (option N) :=
+  let absdiff := Z.to_N (Z.abs diff) in
+  let mult := absdiff * times in
+  if u64_max <? mult then Ok None else
+  if (diff <? 0)%Z then (if count <? mult then Panic else Ok (Some (count - mult)))
+  else (if u64_max <? count + mult then Ok None else Ok (Some (count + mult))).
+
+(** apply_plus between the F4 fix and the checked_add fix (for the record) *)
+Definition apply_plus_prefix8 (count : N) (diff : Z) (times : N) : outcome (option N) :=
   let absdiff := Z.to_N (Z.abs diff) in
   let mult := absdiff * times in
   if u64_max <? mult then Ok None else
